@@ -1,0 +1,259 @@
+//! In-memory replacement for `std::net::{TcpListener, TcpStream}` driven by a simulator.
+//!
+//! Only compiled with the `verif_sim_net` feature. The network lives in a thread-local,
+//! so every simulated cluster has to stay on one thread.
+
+use std::{
+    cell::RefCell,
+    collections::{BTreeMap, VecDeque},
+    io::{self, IoSlice, Read, Write},
+    net::{Ipv4Addr, SocketAddr, ToSocketAddrs},
+};
+
+#[derive(Default)]
+struct Pipe {
+    data: VecDeque<u8>,
+    /// Number of bytes from the front of `data` that the reader may see.
+    released: usize,
+    closed: bool,
+}
+
+#[derive(Default)]
+struct Conn {
+    /// Index 0: client -> server, index 1: server -> client.
+    pipes: [Pipe; 2],
+}
+
+#[derive(Default)]
+struct Net {
+    listeners: BTreeMap<u16, VecDeque<(usize, u16)>>,
+    conns: Vec<Conn>,
+    next_port: u16,
+    hold: bool,
+}
+
+thread_local! {
+    static NET: RefCell<Net> = RefCell::new(Net { next_port: 40000, ..Default::default() });
+}
+
+/// Simulator-side control of the in-memory network.
+pub mod control {
+    use super::NET;
+
+    /// Forgets all listeners and connections.
+    pub fn reset() {
+        NET.with_borrow_mut(|net| {
+            *net = super::Net {
+                next_port: 40000,
+                ..Default::default()
+            }
+        });
+    }
+
+    /// When `true`, written bytes stay invisible to the reader until released.
+    pub fn set_hold(hold: bool) {
+        NET.with_borrow_mut(|net| net.hold = hold);
+    }
+
+    /// Number of connections created so far.
+    pub fn connections() -> usize {
+        NET.with_borrow(|net| net.conns.len())
+    }
+
+    /// Bytes written but not yet released (`to_server` selects the direction).
+    pub fn pending(conn: usize, to_server: bool) -> usize {
+        NET.with_borrow(|net| {
+            let pipe = &net.conns[conn].pipes[if to_server { 0 } else { 1 }];
+            pipe.data.len() - pipe.released
+        })
+    }
+
+    /// Makes up to `bytes` more bytes readable; returns how many were released.
+    pub fn release(conn: usize, to_server: bool, bytes: usize) -> usize {
+        NET.with_borrow_mut(|net| {
+            let pipe = &mut net.conns[conn].pipes[if to_server { 0 } else { 1 }];
+            let n = bytes.min(pipe.data.len() - pipe.released);
+            pipe.released += n;
+            n
+        })
+    }
+}
+
+pub struct TcpListener {
+    port: u16,
+}
+
+impl TcpListener {
+    pub fn bind<A: ToSocketAddrs>(addr: A) -> io::Result<Self> {
+        let mut port = addr
+            .to_socket_addrs()?
+            .next()
+            .map(|a| a.port())
+            .unwrap_or(0);
+        NET.with_borrow_mut(|net| {
+            if port == 0 {
+                port = net.next_port;
+                net.next_port += 1;
+            }
+            if net.listeners.contains_key(&port) {
+                return Err(io::ErrorKind::AddrInUse.into());
+            }
+            net.listeners.insert(port, VecDeque::new());
+            Ok(Self { port })
+        })
+    }
+
+    pub fn set_nonblocking(&self, _nonblocking: bool) -> io::Result<()> {
+        Ok(())
+    }
+
+    pub fn local_addr(&self) -> io::Result<SocketAddr> {
+        Ok((Ipv4Addr::LOCALHOST, self.port).into())
+    }
+
+    pub fn accept(&self) -> io::Result<(TcpStream, SocketAddr)> {
+        NET.with_borrow_mut(|net| {
+            let queue = net
+                .listeners
+                .get_mut(&self.port)
+                .expect("listener should be registered");
+            let (conn, peer_port) = queue.pop_front().ok_or(io::ErrorKind::WouldBlock)?;
+            let stream = TcpStream {
+                conn,
+                server_side: true,
+                port: self.port,
+            };
+            Ok((stream, (Ipv4Addr::LOCALHOST, peer_port).into()))
+        })
+    }
+}
+
+impl Drop for TcpListener {
+    fn drop(&mut self) {
+        let _ = NET.try_with(|net| net.borrow_mut().listeners.remove(&self.port));
+    }
+}
+
+pub struct TcpStream {
+    conn: usize,
+    server_side: bool,
+    port: u16,
+}
+
+impl TcpStream {
+    pub fn connect<A: ToSocketAddrs>(addr: A) -> io::Result<Self> {
+        let port = addr
+            .to_socket_addrs()?
+            .next()
+            .map(|a| a.port())
+            .unwrap_or(0);
+        NET.with_borrow_mut(|net| {
+            let local_port = net.next_port;
+            net.next_port += 1;
+            let conn = net.conns.len();
+            let queue = net
+                .listeners
+                .get_mut(&port)
+                .ok_or(io::ErrorKind::ConnectionRefused)?;
+            queue.push_back((conn, local_port));
+            net.conns.push(Conn::default());
+            Ok(Self {
+                conn,
+                server_side: false,
+                port: local_port,
+            })
+        })
+    }
+
+    /// Identifier for [`control`] functions.
+    pub fn sim_conn(&self) -> usize {
+        self.conn
+    }
+
+    pub fn set_nonblocking(&self, _nonblocking: bool) -> io::Result<()> {
+        Ok(())
+    }
+
+    pub fn set_nodelay(&self, _nodelay: bool) -> io::Result<()> {
+        Ok(())
+    }
+
+    pub fn local_addr(&self) -> io::Result<SocketAddr> {
+        Ok((Ipv4Addr::LOCALHOST, self.port).into())
+    }
+
+    fn incoming(&self) -> usize {
+        if self.server_side { 0 } else { 1 }
+    }
+
+    pub fn peek(&self, buf: &mut [u8]) -> io::Result<usize> {
+        NET.with_borrow(|net| {
+            let pipe = &net.conns[self.conn].pipes[self.incoming()];
+            let n = buf.len().min(pipe.released);
+            if n == 0 && !buf.is_empty() {
+                return if pipe.closed && pipe.data.is_empty() {
+                    Ok(0)
+                } else {
+                    Err(io::ErrorKind::WouldBlock.into())
+                };
+            }
+            for (dst, src) in buf.iter_mut().zip(pipe.data.iter()).take(n) {
+                *dst = *src;
+            }
+            Ok(n)
+        })
+    }
+}
+
+impl Read for TcpStream {
+    fn read(&mut self, buf: &mut [u8]) -> io::Result<usize> {
+        let n = self.peek(buf)?;
+        NET.with_borrow_mut(|net| {
+            let pipe = &mut net.conns[self.conn].pipes[self.incoming()];
+            pipe.data.drain(..n);
+            pipe.released -= n;
+        });
+        Ok(n)
+    }
+}
+
+impl Write for TcpStream {
+    fn write(&mut self, buf: &[u8]) -> io::Result<usize> {
+        self.write_vectored(&[IoSlice::new(buf)])
+    }
+
+    fn write_vectored(&mut self, bufs: &[IoSlice<'_>]) -> io::Result<usize> {
+        NET.with_borrow_mut(|net| {
+            let hold = net.hold;
+            let pipe = &mut net.conns[self.conn].pipes[1 - self.incoming()];
+            if pipe.closed {
+                return Err(io::ErrorKind::BrokenPipe.into());
+            }
+            let mut written = 0;
+            for buf in bufs {
+                pipe.data.extend(buf.iter());
+                written += buf.len();
+            }
+            if !hold {
+                pipe.released = pipe.data.len();
+            }
+            Ok(written)
+        })
+    }
+
+    fn flush(&mut self) -> io::Result<()> {
+        Ok(())
+    }
+}
+
+impl Drop for TcpStream {
+    fn drop(&mut self) {
+        let _ = NET.try_with(|net| {
+            if let Some(conn) = net.borrow_mut().conns.get_mut(self.conn) {
+                for pipe in &mut conn.pipes {
+                    pipe.closed = true;
+                }
+            }
+        });
+    }
+}
